@@ -391,7 +391,7 @@ package ops
 //@ func ConvertTensorDtype
 //@   tags C11,C02
 //@   requires t != nil
-//@   scope extents_positive: dims_positive(t)
+//@   scope extents_positive: dims_positive(t) && blen(t) == nelems(shapeof(t))
 //@   ensures unsupported_target_refused: !cast_supported(newType) ==> err != nil && result == nil
 //@   ensures unsupported_source_refused: !cast_source(dtype(t)) ==> err != nil && result == nil
 //@   ensures converted: cast_supported(newType) && cast_source(dtype(t)) ==> err == nil && result != nil && fresh(result) && same_shape(result, t) &&
